@@ -39,6 +39,12 @@ RULE = (
     "steps. Non-trivial: the case contains a call where a filter removed >=1 "
     "and kept >=1 operation of a list with >=2."
 )
+RULE += (
+    " Thorough tier additionally, split among the workers: small-scope exhaustive "
+    "enumeration - all 29331 instances with job lengths (1) (2) (3) (1,1) (1,2) "
+    "(2,1) (2,2) (1,1,1) (1,1,2) (1,2,1) (2,1,1), machine sets {[0],[1],[0,1]}, "
+    "durations {0,1,3} - with every dispatch history of each (jsverif/smallscope.py)."
+)
 BUDGET = {"quick": 500, "thorough": 6000}
 ASSUMPTIONS = [
     "criteria as written in jsverif/model.py (f_* methods) from the filter docstrings and the property statement",
@@ -118,7 +124,68 @@ def structural(ctx, name, lst, before, result, where):
     )
 
 
+def worker_cases(tier, index, n):
+    if tier != "thorough":
+        return
+    from .. import smallscope
+
+    for inst in smallscope.shard(index, n):
+        yield {"mode": "small_scope", "inst": inst}
+
+
+def _small_scope(case, ctx):
+    """Every reachable state of the instance x every non-empty sub-list of the
+    ready operations x the four filters and all 16 ordered pairs."""
+    from .. import smallscope
+    from ..lib import ref
+
+    inst = case["inst"]
+    instance = build_instance(inst)
+    pairs = [(a, b) for a in gen.FILTER_NAMES for b in gen.FILTER_NAMES]
+    composites = {pr: create_composite_operation_filter(list(pr)) for pr in pairs}
+    for prefix in [[]] + smallscope.all_prefixes(inst):
+        d = Dispatcher(instance)
+        m = smallscope.replay(inst, instance, prefix, d)
+        ready = m.ready()
+        if (len(prefix) + len(ready)) % 2:
+            d.current_time()  # cached values present in half of the states
+        for mask in range(1, 1 << len(ready)):
+            sub = [ready[i] for i in range(len(ready)) if (mask >> i) & 1]
+            where = f"history {prefix}, L={sub}"
+            singles = {}
+            for nm, func in FUNCS.items():
+                lst = [instance.jobs[j][p] for (j, p) in sub]
+                before = list(lst)
+                res = func(d, lst)
+                structural(ctx, nm, lst, before, res, where)
+                got = [fp.jp(o) for o in res]
+                singles[nm] = got
+                want = m.apply_filter(nm, sub)
+                if want is not None:
+                    ctx.check(got == want, "criterion:" + nm, f"{where}: {nm} kept {got}, criterion keeps {want}")
+                ctx.count("filter_calls")
+            for (a, b), comp in composites.items():
+                lst = [instance.jobs[j][p] for (j, p) in sub]
+                before = list(lst)
+                res = comp(d, lst)
+                structural(ctx, f"composite[{a},{b}]", lst, before, res, where)
+                first = singles[a]
+                second = [fp.jp(o) for o in FUNCS[b](d, [instance.jobs[j][p] for (j, p) in first])]
+                ctx.check(
+                    [fp.jp(o) for o in res] == second,
+                    "composition",
+                    f"{where}: composite [{a},{b}] kept {[fp.jp(o) for o in res]}, {b}({a}(L)) = {second}",
+                )
+        ctx.count("small_scope_nodes")
+    ctx.count("small_scope_instances")
+    ctx.label("mode=small_scope")
+    ctx.nontrivial = sum(len(r) for r in inst["durations"]) >= 3
+
+
 def check_case(case, ctx):
+    if case.get("mode") == "small_scope":
+        _small_scope(case, ctx)
+        return
     inst, comp, history, masks = case["inst"], case["comp"], case["history"], case["masks"]
     instance = build_instance(inst)
     names = [c[0] for c in comp]
